@@ -134,7 +134,16 @@ def optsWf (opts : List Opt) : Bool :=
     | .unknownValue v => Any.wf v
     | _ => true
 
+def optsOutside (opts : List Opt) : Bool :=
+  opts.any fun o => match o with
+    | .unknownValue v => Any.outside v
+    | _ => false
+
 def evalLine (opts : List Opt) (expr : GoString) (datum : Any) (t : ReTable) : String :=
+  -- a VALUE of a non-empty interface type (fmt.Stringer, error …: an element, field, pointee or map
+  -- value) is outside the modelled universe (`Go/WF.lean`, `GoVal.outside`): the harness still runs the
+  -- real code on it (panic oracle), the model says `U`.  As a map's KEY type it is modelled.
+  if Any.outside datum || optsOutside opts then "U" else
   -- the hypotheses of the evaluator theorems are checked on every value the harness sends
   if !(Any.wf datum && optsWf opts) then "WF?" else
   match createEvaluator goEnv goGrammar expr opts with
@@ -149,6 +158,7 @@ def evalLine (opts : List Opt) (expr : GoString) (datum : Any) (t : ReTable) : S
     assigns to the text, with `R1` when the Boolean hypotheses of `C01.refOk_sound` hold (then the
     answer is what `Evaluate` must return) and `R0` otherwise. -/
 def evalRefLine (opts : List Opt) (expr : GoString) (datum : Any) (t : ReTable) : String :=
+  if Any.outside datum || optsOutside opts then "U" else
   if !(Any.wf datum && optsWf opts) then "WF?" else
   match createEvaluator pinEnv pinGrammar expr opts with
   | .err => "CE"
@@ -173,6 +183,7 @@ def canonTop : Any → Any
   | v => v
 
 def filterLine (expr : GoString) (datum : Any) (t : ReTable) : String :=
+  if Any.outside datum then "U" else
   if !(Any.wf datum) then "WF?" else
   match createFilter goEnv goGrammar expr with
   | .err => "CE"
@@ -224,9 +235,6 @@ def handle (line : String) : String :=
     | some m, some b => parseMsgLine goNames BexprGen.FailNames.texts goEnv goGrammar m b
     | _, _ => "bad"
   | "eval" :: rest =>
-    -- a value of a NON-EMPTY interface type (fmt.Stringer, error …) is outside the modelled universe
-    -- (`Go/Val.lean`): the harness still runs the real code on it (panic oracle), the model says `U`
-    if rest.contains "interface" then "U" else
     match parseAll rest with
     | some [opts, .atom e, d, t] =>
       match optsOfSx opts, hexAtom? e, anyOfSx d, reTableOfSx t with
@@ -241,7 +249,6 @@ def handle (line : String) : String :=
       | _, _, _, _ => "bad"
     | _ => "bad"
   | "filter" :: rest =>
-    if rest.contains "interface" then "U" else
     match parseAll rest with
     | some [.atom e, d, t] =>
       match hexAtom? e, anyOfSx d, reTableOfSx t with
